@@ -32,6 +32,7 @@ import (
 	"github.com/foxcpp/maddy/internal/target/queue"
 	"github.com/foxcpp/maddy/internal/zzverif/mx"
 	"golang.org/x/net/idna"
+	"golang.org/x/text/unicode/norm"
 	"verifkit/prng"
 	"verifkit/rep"
 )
@@ -43,6 +44,8 @@ type mailbox struct {
 	local string
 	domU  string
 	domA  string
+	// kind of the local part: plain | utf8 | nfd | compat | case | quoted
+	kind string
 }
 
 func (m mailbox) u() string { return m.local + "@" + m.domU }
@@ -62,6 +65,37 @@ var utf8Locals = []string{"юзер", "用户", "josé", "δοκιμή", "mañan
 var asciiDomains = []string{"a-rather-long-domain-name.subdomain.of.another.example.org", "example.org", "mail.example.net", "sub.domain.test", "a.example", "example.com", "mx1.corp.example"}
 var idnDomains = []string{"тест.example", "bücher.example", "例え.jp", "müller.example.org", "почта.рф", "ñandú.example.net"}
 
+// Local parts whose spelling an over-eager normaliser changes. The local part
+// is opaque to everybody but the final host (RFC 5321 2.3.11, RFC 6531 3.2:
+// no normalisation, no case folding by a relay), so a report has to show it
+// octet for octet.
+//
+// nfdLocals: not in NFC (decomposed letters, a singleton that NFC replaces,
+// combining marks in non-canonical order, conjoining Hangul jamo). Written
+// with escapes on purpose: an editor must not "repair" them.
+var nfdLocals = []string{
+	"re\u0301sume\u0301",      // e + COMBINING ACUTE
+	"jose\u0301.garci\u0301a", // two decomposed letters
+	"\u212bngstro\u0308m",     // ANGSTROM SIGN (singleton, NFC -> U+00C5) + o + DIAERESIS
+	"q\u0307\u0323x",          // marks not in canonical order (NFC swaps them)
+	"\u1112\u1161\u11ab",      // Hangul jamo (NFC composes one syllable)
+	"\u0438\u0306van",         // Cyrillic i + BREVE (NFC -> U+0439)
+	"u\u0308ber+tag",          // u + DIAERESIS
+	"\u2126hm",                // OHM SIGN (singleton, NFC -> U+03A9)
+}
+
+// compatLocals: in NFC already, but changed by NFKC / width folding.
+var compatLocals = []string{"\uff55\uff53\uff45\uff52", "\uff29\uff4e\uff46\uff4f", "\ufb01nance", "\u2460\u2461\u2462", "\u210cello", "x\u00b2", "\uff76\uff80\uff76\uff85"}
+
+// caseLocals: changed by case folding.
+var caseASCIILocals = []string{"Alice.Smith", "McDonald", "ALLCAPS", "camelCase+Tag", "iNFO", "Bob_O-Neil"}
+var caseUTF8Locals = []string{"\u00dcn\u00efCode", "\u042e\u0417\u0415\u0420", "\u0130stanbul", "Stra\u00dfe", "\u0394\u03bf\u03ba\u03b9\u03bc\u03ae"}
+
+// quotedLocals: quoted-string local parts (RFC 5321 4.1.2), some of which need
+// the quotes (space, specials, consecutive or leading dots), some of which do not.
+var quotedASCIILocals = []string{`"john doe"`, `"a@b"`, `"semi;colon"`, `"quote\"inside"`, `"back\\slash"`, `"needless"`, `"dot..dot"`, `".leading"`, `"comma,list"`, `"<angle>"`}
+var quotedUTF8Locals = []string{"\"\u0436\u0430\u043d \u043f\u043e\u043b\u044c\"", "\"re\u0301sume\u0301 cv\""}
+
 var idnA = map[string]string{}
 
 func initDomains() error {
@@ -76,19 +110,174 @@ func initDomains() error {
 		}
 		idnA[d] = a
 	}
+	// self-check of the hostile local part pools: each must really be what its pool says
+	for _, l := range nfdLocals {
+		if norm.NFC.String(l) == l {
+			return fmt.Errorf("local part %+q is in NFC already", l)
+		}
+	}
+	for _, l := range compatLocals {
+		if norm.NFC.String(l) != l || norm.NFKC.String(l) == l {
+			return fmt.Errorf("local part %+q is not an NFC string that NFKC changes", l)
+		}
+	}
+	for _, l := range append(append([]string{}, caseASCIILocals...), caseUTF8Locals...) {
+		if strings.ToLower(l) == l {
+			return fmt.Errorf("local part %+q has no upper-case letter", l)
+		}
+	}
+	for _, l := range append(append([]string{}, quotedASCIILocals...), quotedUTF8Locals...) {
+		if _, ok := unquoteLocal(l); !ok {
+			return fmt.Errorf("local part %+q is not a quoted-string", l)
+		}
+	}
 	return nil
 }
 
+// unquoteLocal returns the content of a quoted-string local part
+// (RFC 5321 4.1.2: DQUOTE *(qtextSMTP / "\" x) DQUOTE).
+func unquoteLocal(l string) (string, bool) {
+	if len(l) < 2 || l[0] != '"' || l[len(l)-1] != '"' {
+		return "", false
+	}
+	in := l[1 : len(l)-1]
+	var b strings.Builder
+	for i := 0; i < len(in); i++ {
+		switch in[i] {
+		case '"':
+			return "", false
+		case '\\':
+			i++
+			if i >= len(in) {
+				return "", false
+			}
+			b.WriteByte(in[i])
+		default:
+			b.WriteByte(in[i])
+		}
+	}
+	return b.String(), true
+}
+
+// dotAtom: can s stand as a local part without quotes (RFC 5321 Dot-string,
+// RFC 6531 adds every non-ASCII character to atext)?
+func dotAtom(s string) bool {
+	if s == "" || s[0] == '.' || s[len(s)-1] == '.' || strings.Contains(s, "..") {
+		return false
+	}
+	for i := 0; i < len(s); i++ {
+		c := s[i]
+		if c >= 0x80 {
+			continue
+		}
+		if c <= ' ' || c == 0x7f || strings.IndexByte(`()<>[]:;@\,"`, c) >= 0 {
+			return false
+		}
+	}
+	return true
+}
+
+// localContent is what a local part denotes independent of its quoting:
+// RFC 5321 4.1.2 declares "abc"@d and abc@d (and "a\bc"@d) equivalent, so a
+// report may legitimately show another quoting of the same content. ok=false:
+// neither a quoted-string nor a Dot-string.
+func localContent(l string) (string, bool) {
+	if strings.HasPrefix(l, `"`) {
+		return unquoteLocal(l)
+	}
+	return l, dotAtom(l)
+}
+
+// foldLocal maps a local part to what every normaliser/folder we know of would
+// make of it; used only to give mailboxes of one case pairwise different folded
+// forms (so that a re-spelled address can be attributed) and to name the cause
+// class of a violation, never to accept anything.
+func foldLocal(l string) string {
+	if c, ok := localContent(l); ok {
+		l = c
+	}
+	return strings.ToLower(norm.NFKC.String(strings.ToLower(l)))
+}
+
+// domKey is the class of a domain: case-insensitive, U-label and A-label
+// spelling are the same domain (a non-EAI report shows the A-label form of
+// what the sender wrote as U-label, RFC 6533 and dsn.go SelectIDNA).
+func domKey(d string) string {
+	d = strings.ToLower(norm.NFC.String(d))
+	if a, err := idna.ToASCII(d); err == nil {
+		return strings.ToLower(a)
+	}
+	return d
+}
+
+func splitAddr(a string) (local, dom string, ok bool) {
+	i := strings.LastIndexByte(a, '@')
+	if i <= 0 || i == len(a)-1 {
+		return "", "", false
+	}
+	return a[:i], a[i+1:], true
+}
+
+// addrTable: how the harness recognises an address shown by maddy. The
+// DOMAIN is compared as a class, the LOCAL PART octet for octet (how =
+// "exact"), or, failing that, by content modulo quoting ("requoted",
+// legitimate, counted); a local part that matches only after case folding /
+// Unicode normalisation is a re-spelled one ("respelled": not the address the
+// sender used).
+type addrTable struct {
+	exact   map[string]int
+	content map[string]int
+	folded  map[string]int
+	kind    map[int]string
+}
+
+func newAddrTable() *addrTable {
+	return &addrTable{exact: map[string]int{}, content: map[string]int{}, folded: map[string]int{}, kind: map[int]string{}}
+}
+
+func (t *addrTable) add(m mailbox) {
+	dk := domKey(m.domU)
+	t.exact[m.local+"@"+dk] = m.id
+	if c, ok := localContent(m.local); ok {
+		t.content[c+"@"+dk] = m.id
+	}
+	t.folded[foldLocal(m.local)+"@"+dk] = m.id
+	t.kind[m.id] = m.kind
+}
+
+func (t *addrTable) lookup(addr string) (id int, how string) {
+	l, d, ok := splitAddr(addr)
+	if !ok {
+		return 0, "unknown"
+	}
+	dk := domKey(d)
+	if id, ok := t.exact[l+"@"+dk]; ok {
+		return id, "exact"
+	}
+	if c, ok := localContent(l); ok {
+		if id, ok := t.content[c+"@"+dk]; ok {
+			return id, "requoted"
+		}
+	}
+	if id, ok := t.folded[foldLocal(l)+"@"+dk]; ok {
+		return id, "respelled"
+	}
+	return 0, "unknown"
+}
+
 // genMailboxes returns n distinct mailboxes. allowUTF8Local says whether
-// local parts may be non-ASCII.
-func genMailboxes(p *prng.R, n int, firstID int, allowUTF8Local bool, used map[string]bool) []mailbox {
+// local parts may be non-ASCII. p2 is a separate stream that decides whether
+// the local part is replaced by one of the hostile spellings.
+func genMailboxes(p, p2 *prng.R, n int, firstID int, allowUTF8Local bool, used map[string]bool) []mailbox {
 	var out []mailbox
 	for len(out) < n {
 		var m mailbox
 		if allowUTF8Local && p.Chance(1, 3) {
 			m.local = prng.Pick(p, utf8Locals)
+			m.kind = "utf8"
 		} else {
 			m.local = prng.Pick(p, asciiLocals)
+			m.kind = "plain"
 		}
 		if p.Chance(2, 5) {
 			m.domU = prng.Pick(p, idnDomains)
@@ -97,7 +286,25 @@ func genMailboxes(p *prng.R, n int, firstID int, allowUTF8Local bool, used map[s
 			m.domU = prng.Pick(p, asciiDomains)
 			m.domA = m.domU
 		}
-		key := strings.ToLower(m.u())
+		if p2.Chance(1, 3) {
+			if allowUTF8Local {
+				switch p2.Intn(6) {
+				case 0, 1:
+					m.local, m.kind = prng.Pick(p2, nfdLocals), "nfd"
+				case 2:
+					m.local, m.kind = prng.Pick(p2, compatLocals), "compat"
+				case 3:
+					m.local, m.kind = prng.Pick(p2, append(append([]string{}, caseASCIILocals...), caseUTF8Locals...)), "case"
+				default:
+					m.local, m.kind = prng.Pick(p2, append(append([]string{}, quotedASCIILocals...), quotedUTF8Locals...)), "quoted"
+				}
+			} else if p2.Bool() {
+				m.local, m.kind = prng.Pick(p2, caseASCIILocals), "case"
+			} else {
+				m.local, m.kind = prng.Pick(p2, quotedASCIILocals), "quoted"
+			}
+		}
+		key := foldLocal(m.local) + "@" + domKey(m.domU)
 		if used[key] {
 			continue
 		}
@@ -151,9 +358,75 @@ func genText(p *prng.R, n int) (string, string) {
 	}
 }
 
-func genErr(p *prng.R, class string, n int) *errSpec {
+// genRawControls: error texts with C0 control characters other than HT, CR, LF
+// (and DEL). See NOTES.md "Round 4": dsn.RecipientInfo.WriteTo copies them
+// into Diagnostic-Code, which standard parsers then refuse. Reported to the
+// coordinator as a suspected defect of the unchanged tree; the class is
+// excluded (not generated) until that is decided. Overridable for replaying
+// the finding: VERIF_C18_RAW_CONTROLS=1.
+var genRawControls = os.Getenv("VERIF_C18_RAW_CONTROLS") != "0" // on since fix 429a907 (dsn: control characters neutralised); "0" switches the class off
+
+// hostileText: reply texts a real next hop can cause that the plain generator
+// above does not produce. The SMTP client hands over the reply lines joined
+// with LF after stripping ONE CRLF per line, so a server ending its lines
+// with CR CR LF leaves a CR at the end of every line; nothing stops a server
+// from sending bare CR, TAB or other control characters inside a line, a
+// 10 kB line, lines with differing enhanced codes (only the first is parsed,
+// the others stay in the text) or no text at all. Drawn from a stream of its
+// own (keyed like the fault) so that the faults of earlier versions keep
+// their place.
+func hostileText(q *prng.R, n int) (string, string, bool) {
+	if !q.Chance(1, 3) {
+		return "", "", false
+	}
+	tok := fmt.Sprintf("tok%04d", n)
+	k := q.Intn(16)
+	if k == 15 && !genRawControls {
+		k = q.Intn(15)
+	}
+	switch k {
+	case 0:
+		return "line one " + tok + "\rline two\rline three", "bare-cr", true
+	case 1:
+		// CR CR LF line ends: one CRLF stripped per line by the client
+		return "mx.example.org said: Mailbox full " + tok + "\r\nTry again later\r", "crcrlf-line-ends", true
+	case 2:
+		return "single line " + tok + "\r", "cr-at-end", true
+	case 3:
+		return "\r" + tok + "\r\r\n\r\rmixed\n\rbreaks\r\n", "cr-lf-mixed", true
+	case 4:
+		return "\nleading and trailing " + tok + "\n\nline breaks\n", "bare-lf-edges", true
+	case 5:
+		return "tab\tseparated\t" + tok + "\t", "tab", true
+	case 6:
+		return strings.Repeat("y", 1500) + tok, "very-long-token", true
+	case 7:
+		return strings.Repeat("a rather long reply line with spaces ", 110) + tok, "very-long-line", true
+	case 8:
+		return strings.Repeat("\u0434\u043b\u0438\u043d\u043d\u043e", 100) + tok, "very-long-utf8-token", true
+	case 9:
+		return "first reply line " + tok + "\n5.2.2 second line carries another code\n4.4.4 third line yet another", "multiline-differing-enhanced-codes", true
+	case 10:
+		return "", "empty", true
+	case 11:
+		return prng.Pick(q, []string{" ", "\r\n", "\n", "\t", "\r"}), "white-space-only", true
+	case 12:
+		return "5.7.1 " + tok + " text that begins like an enhanced code", "code-lookalike", true
+	case 13:
+		return tok + ": header-like\r\nStatus: 2.0.0\r\nAction: delivered\r\n\r\nFinal-Recipient: rfc822; nobody@example.org", "field-lookalike-lines", true
+	case 14:
+		return strings.Repeat("line "+tok+"\r\n", 60), "sixty-lines", true
+	default:
+		return "bell\x07 esc\x1b vt\x0b ff\x0c bs\x08 soh\x01 del\x7f " + tok, "c0-control", true
+	}
+}
+
+func genErr(p, q *prng.R, class string, n int) *errSpec {
 	e := &errSpec{Class: class}
 	e.Text, e.TextKind = genText(p, n)
+	if t, k, ok := hostileText(q, n); ok {
+		e.Text, e.TextKind = t, k
+	}
 	switch class {
 	case mx.Temp:
 		if p.Chance(3, 4) {
@@ -231,12 +504,13 @@ type scenario struct {
 	BounceClass  string
 	Loop         bool
 	Parallelism  int
-	classOf      map[string]int // spelling -> mailbox id
-	effOrigin    map[int]int    // effective mailbox id -> original mailbox id (rewritten recipients)
-	effOnly      map[int]bool   // mailbox ids that are only rewrite targets
+	addrs        *addrTable   // address shown by maddy -> mailbox id (domain as a class, local part exact)
+	effOrigin    map[int]int  // effective mailbox id -> original mailbox id (rewritten recipients)
+	effOnly      map[int]bool // mailbox ids that are only rewrite targets
 	faults       map[string]*errSpec
 	faultCounter int
 	chainedRcpts int // recipients whose client-supplied address is another recipient's rewrite target
+	localKinds   map[string]int
 }
 
 func genHeader(p *prng.R, utf8 bool) []byte {
@@ -285,8 +559,11 @@ func spell(p *prng.R, m mailbox, utf8 bool) string {
 	return m.u()
 }
 
-func genScenario(p *prng.R, ci int) *scenario {
-	sc := &scenario{classOf: map[string]int{}, effOrigin: map[int]int{}, effOnly: map[int]bool{}, faults: map[string]*errSpec{}}
+func genScenario(p *prng.R, seed uint64, ci int) *scenario {
+	// p2: separate stream for the dimensions added later (hostile local part spellings), so that the
+	// scenarios of earlier harness versions are not reshuffled
+	p2 := prng.New(seed, uint64(ci), "c18-local-spelling")
+	sc := &scenario{addrs: newAddrTable(), localKinds: map[string]int{}, effOrigin: map[int]int{}, effOnly: map[int]bool{}, faults: map[string]*errSpec{}}
 	sc.UTF8 = p.Bool()
 	sc.MaxTries = p.Range(1, 3)
 	sc.Partial = p.Bool()
@@ -305,14 +582,14 @@ func genScenario(p *prng.R, ci int) *scenario {
 	nm := p.Range(1, 3)
 	nextID := 1
 	reg := func(m mailbox) {
-		sc.classOf[m.u()] = m.id
-		sc.classOf[m.a()] = m.id
+		sc.addrs.add(m)
+		sc.localKinds[m.kind]++
 	}
 	for mi := 0; mi < nm; mi++ {
 		m := &msgPlan{ID: fmt.Sprintf("c%dm%d", ci, mi)}
 		// sender: client-supplied, so ASCII local part unless the message is an EAI one
 		if !p.Chance(1, 6) {
-			s := genMailboxes(p, 1, nextID, sc.UTF8, used)[0]
+			s := genMailboxes(p, p2, 1, nextID, sc.UTF8, used)[0]
 			nextID++
 			reg(s)
 			m.Sender = &s
@@ -320,7 +597,7 @@ func genScenario(p *prng.R, ci int) *scenario {
 			m.From = m.OrigFrom
 			if p.Chance(1, 8) {
 				// sender rewritten by a modifier in front of the queue
-				alt := genMailboxes(p, 1, nextID, sc.UTF8, used)[0]
+				alt := genMailboxes(p, p2, 1, nextID, sc.UTF8, used)[0]
 				nextID++
 				reg(alt)
 				m.FromAlt = &alt
@@ -338,7 +615,7 @@ func genScenario(p *prng.R, ci int) *scenario {
 				// (old@ -> info@, info@ -> mailbox@; OriginalRcpts = {info@: old@, mailbox@: info@}).
 				// A failure of mailbox@ must be reported under info@, one step back, not under old@.
 				prev := &m.Rcpts[ri-1]
-				e := genMailboxes(p, 1, nextID, true, used)[0]
+				e := genMailboxes(p, p2, 1, nextID, true, used)[0]
 				nextID++
 				reg(e)
 				o := prev.Eff
@@ -352,9 +629,9 @@ func genScenario(p *prng.R, ci int) *scenario {
 				sc.chainedRcpts++
 			} else if p.Chance(2, 5) {
 				// rewritten recipient: the client used Orig, the queue holds Eff
-				o := genMailboxes(p, 1, nextID, sc.UTF8, used)[0]
+				o := genMailboxes(p, p2, 1, nextID, sc.UTF8, used)[0]
 				nextID++
-				e := genMailboxes(p, 1, nextID, true, used)[0]
+				e := genMailboxes(p, p2, 1, nextID, true, used)[0]
 				nextID++
 				reg(o)
 				reg(e)
@@ -364,7 +641,7 @@ func genScenario(p *prng.R, ci int) *scenario {
 				sc.effOrigin[e.id] = o.id
 				sc.effOnly[e.id] = true
 			} else {
-				e := genMailboxes(p, 1, nextID, sc.UTF8, used)[0]
+				e := genMailboxes(p, p2, 1, nextID, sc.UTF8, used)[0]
 				nextID++
 				reg(e)
 				rp.Eff = e
@@ -416,6 +693,7 @@ func (pl *planner) decide(pt mx.Point) *errSpec {
 		return e
 	}
 	p := prng.New(pl.seed, uint64(pl.ci), "c18-fault|"+key)
+	q := prng.New(pl.seed, uint64(pl.ci), "c18-hostile-text|"+key)
 	// attempt-level disposition, shared by all stages of the attempt
 	pa := prng.New(pl.seed, uint64(pl.ci), fmt.Sprintf("c18-att|%s|%d", id, pt.Attempt))
 	attKind := pa.Weighted([]int{6, 1, 1, 1}) // per-recipient, start, body, commit
@@ -428,23 +706,23 @@ func (pl *planner) decide(pt mx.Point) *errSpec {
 	switch pt.Stage {
 	case mx.StStart:
 		if attKind == 1 {
-			e = genErr(p, pickClass(p), n)
+			e = genErr(p, q, pickClass(p), n)
 		}
 	case mx.StBody:
 		if attKind == 2 {
-			e = genErr(p, pickClass(p), n)
+			e = genErr(p, q, pickClass(p), n)
 		}
 	case mx.StCommit:
 		if attKind == 3 {
-			e = genErr(p, pickClass(p), n)
+			e = genErr(p, q, pickClass(p), n)
 		}
 	case mx.StRcpt:
 		if p.Chance(2, 5) {
-			e = genErr(p, pickClass(p), n)
+			e = genErr(p, q, pickClass(p), n)
 		}
 	case mx.StStatus:
 		if p.Chance(2, 5) {
-			e = genErr(p, pickClass(p), n)
+			e = genErr(p, q, pickClass(p), n)
 		}
 	}
 	pl.sc.faults[key] = e
@@ -573,7 +851,7 @@ func runCase(t *testing.T, r *rep.Reporter, c *rep.Case, ci int, capture *logCap
 	capture.lines = nil
 	capture.mu.Unlock()
 	p := prng.New(r.Seed(), uint64(ci), "c18")
-	sc := genScenario(p, ci)
+	sc := genScenario(p, r.Seed(), ci)
 	pl := &planner{seed: r.Seed(), ci: ci, sc: sc}
 
 	lg := mx.NewLog()
@@ -789,12 +1067,19 @@ func runCase(t *testing.T, r *rep.Reporter, c *rep.Case, ci int, capture *logCap
 				continue
 			}
 		}
-		id, known := sc.classOf[rc[0]]
+		id, how := sc.addrs.lookup(rc[0])
 		m := senderOf[id]
-		if !known || m == nil {
+		if how == "respelled" && m != nil {
+			// the mailbox is recognisable, but this is not the address the sender gave in MAIL FROM:
+			// a local part is opaque, a report sent to another spelling of it need not reach the sender
+			viol("envelope/sender-local-part-respelled/"+sc.addrs.kind[id], fmt.Sprintf("report addressed to %+q, the sender of message %s is %+q / %+q: the local part is not the one the sender used", rc[0], m.ID, m.OrigFrom, m.From), witness{Message: m.ID})
+		} else if how == "unknown" || m == nil {
 			viol("envelope/not-addressed-to-sender", fmt.Sprintf("report addressed to %q, which is not the sender of any message of this case", rc[0]), witness{})
 			uncorrelated++
 			continue
+		} else {
+			r.Count("report_envelope_recipient_"+how, 1)
+			r.Count("report_envelope_recipient_local_kind_"+sc.addrs.kind[id], 1)
 		}
 		if b.BodyKind == "" {
 			floating[m]++
@@ -1030,12 +1315,31 @@ func judgeReport(r *rep.Reporter, sc *scenario, m *msgPlan, b *mx.DeliverySummar
 	// --- recipients: classes of the listed addresses
 	obs := map[int]int{}
 	bad := false
-	for _, g := range rp.Rcpts {
-		id, ok := sc.classOf[g.Addr]
-		if !ok {
+	ids := make([]int, len(rp.Rcpts))
+	for gi, g := range rp.Rcpts {
+		id, how := sc.addrs.lookup(g.Addr)
+		ids[gi] = id
+		switch how {
+		case "unknown":
 			viol("recipients/unknown-address", fmt.Sprintf("Final-Recipient %q is not a spelling of any address of this case", g.Addr), w)
 			bad = true
 			continue
+		case "respelled":
+			// The domain may be shown in either IDNA form; the local part is opaque to everyone but
+			// the final host and must be shown octet for octet as the sender wrote it (RFC 3464 2.3.2
+			// "the case of alphabetic characters in the address MUST be preserved", RFC 6531 3.2: no
+			// normalisation of local parts) - "under the addresses the sender originally used".
+			// The group is still attributed to its mailbox so that the rest of the report is judged.
+			viol("recipients/local-part-respelled/"+sc.addrs.kind[id], fmt.Sprintf("Final-Recipient %+q names a mailbox of this case with another local part than the sender used (case folded, normalised or otherwise re-spelled)", g.Addr), w)
+		case "requoted":
+			// RFC 5321 4.1.2: the quoted and the unquoted form of the same content are equivalent
+			r.Count("final_recipient_requoted(accepted)", 1)
+		default:
+			r.Count("final_recipient_local_part_exact", 1)
+			r.Count("final_recipient_local_kind_"+sc.addrs.kind[id], 1)
+			if sc.UTF8 {
+				r.Count("final_recipient_local_kind_"+sc.addrs.kind[id]+"_in_eai_report", 1)
+			}
 		}
 		if sc.effOnly[id] {
 			viol("recipients/rewrite-target-disclosed", fmt.Sprintf("Final-Recipient %q is the address a recipient was rewritten to, not the one the sender used", g.Addr), w)
@@ -1111,8 +1415,8 @@ func judgeReport(r *rep.Reporter, sc *scenario, m *msgPlan, b *mx.DeliverySummar
 	r.Count("reports_matched", 1)
 
 	// --- status codes
-	for _, g := range rp.Rcpts {
-		id := sc.classOf[g.Addr]
+	for gi, g := range rp.Rcpts {
+		id := ids[gi]
 		cands := match.rcpts[id]
 		if !g.StatusOK {
 			continue // already reported as malformed
@@ -1138,11 +1442,13 @@ func judgeReport(r *rep.Reporter, sc *scenario, m *msgPlan, b *mx.DeliverySummar
 				if g.DiagCode == e.Code && g.DiagEnh[0] == e.Code/100 && g.Status == g.DiagEnh {
 					okAny = true
 					r.Count("status_codes_checked_basic_code_only", 1)
+					r.Count("status_checked_text_"+e.TextKind, 1)
 				}
 			} else if e.Annotated {
 				want = append(want, fmt.Sprintf("%d %d.%d.%d", e.Code, e.Enh[0], e.Enh[1], e.Enh[2]))
 				if g.DiagCode == e.Code && g.DiagEnh == e.Enh && g.Status == e.Enh {
 					okAny = true
+					r.Count("status_checked_text_"+e.TextKind, 1)
 					if stripWS(g.DiagText) == stripWS(e.Text) {
 						r.Count("diagnostic_text_equal", 1)
 					} else {
